@@ -107,6 +107,13 @@ def make_pool(seed, n):
     out.append('project f2 "F" 2025-03-03 +2w {\n  timezone "Etc/UTC"\n  timingresolution 30min\n}\nresource r "r" {\n  leaves annual 2025-03-03 - 2026-03-03\n}\nresource q "q" {}\n'
                'task g "g" {\n  limits { dailymax 2h }\n  task never "n" {\n    effort 4h\n    allocate r\n  }\n  task slow "s" {\n    effort 300h\n    allocate q\n  }\n}\n'
                'task late "l" {\n  effort 2h\n  allocate q\n  start 2025-09-01\n}\n')
+    # report definitions the message handler reports as ERRORS (invalid character, empty name): whatever state that
+    # leaves behind must not change what the next, good project does (seeded change C12-d read the error counter of
+    # the process-wide message handler singleton)
+    good_ = 'project e%d "E" 2025-03-03 +2w {\n  timezone "Etc/UTC"\n}\nresource r "r" {}\ntask a "a" {\n  effort 2d\n  allocate r\n}\n'
+    out.append(good_ % 1 + 'taskreport bad "what?" {\n  formats csv\n  columns id, start\n}\n')
+    out.append(good_ % 2 + 'taskreport esc "../escape" {\n  formats json\n  columns id, start\n}\n')
+    out.append(good_ % 3 + 'taskreport fine "fine" {\n  formats json, csv\n  columns id, start, end\n}\n')
     # ties between several candidates (seeded change C12-c: alternatives iterated as a set of id strings): the primary is
     # away, several idle alternatives with identical calendars tie; whatever breaks the tie must not be the hash seed
     for k, names in enumerate((["zeta", "alpha", "kappa", "beta", "omega", "delta"], ["r9", "r10", "r2", "r33", "r4", "r51"])):
@@ -207,6 +214,32 @@ def do_parse(text, schedule=True):
             return None, "EXC:" + type(e).__name__
 
 
+def fp_cli(text):
+    """the in-process command-line path (scriptplan.cli.main.run_scriptplan, the function behind 'plan report'):
+    success flag + names and bytes of the files it wrote"""
+    import hashlib
+    import shutil
+    import tempfile
+    d = tempfile.mkdtemp(prefix="c12cli-", dir=common.WORK)
+    try:
+        src = os.path.join(d, "in.tjp")
+        out = os.path.join(d, "out")
+        os.makedirs(out)
+        open(src, "w", encoding="utf-8").write(text)
+        try:
+            from scriptplan.cli.main import run_scriptplan
+            ok, _msg = quietly(lambda: run_scriptplan(src, out))
+        except BaseException as e:
+            return "CLI-EXC:" + type(e).__name__
+        files = []
+        for base, _dirs, names in os.walk(out):
+            for n in sorted(names):
+                files.append((os.path.relpath(os.path.join(base, n), out), hashlib.sha256(open(os.path.join(base, n), "rb").read()).hexdigest()[:12]))
+        return common.h12(repr((bool(ok), sorted(files))))
+    finally:
+        shutil.rmtree(d, ignore_errors=True)
+
+
 def quietly(f):
     with contextlib.redirect_stderr(io.StringIO()), contextlib.redirect_stdout(io.StringIO()), warnings.catch_warnings():
         warnings.simplefilter("ignore")
@@ -221,7 +254,7 @@ def worker(job, acc):
         ti = job["params"]["text"]
         p, exc = do_parse(texts[ti])
         fp = exc if p is None else fp_project(p) + "/" + quietly(lambda: fp_reports(p))
-        acc.notes.append("FRESH " + common.dumps(dict(text=ti, hashseed=job.get("hashseed"), fp=fp)))
+        acc.notes.append("FRESH " + common.dumps(dict(text=ti, hashseed=job.get("hashseed"), fp=fp, cli=fp_cli(texts[ti]))))
         acc.count("fresh-runs")
         return
     # ---- history
@@ -231,9 +264,15 @@ def worker(job, acc):
     touched = set()
     last = None   # (text index, project)
     for step in range(n_ops):
-        op = rnd.choice(["parse", "parse", "parse", "parse-noschedule-then-schedule", "reschedule", "reports-twice", "parse-same-again"])
+        op = rnd.choice(["parse", "parse", "parse", "parse-noschedule-then-schedule", "reschedule", "reports-twice", "parse-same-again", "cli-run"])
         before = state_snapshot()
-        if op in ("parse", "parse-noschedule-then-schedule", "parse-same-again") or last is None:
+        if op == "cli-run":
+            ti = rnd.randrange(len(texts))
+            if touched and rnd.random() < 0.4:
+                sibs = [x for x, gg in GROUPS.items() if gg == rnd.choice(sorted(touched))]
+                ti = rnd.choice(sibs) if sibs else ti
+            fp = fp_cli(texts[ti])
+        elif op in ("parse", "parse-noschedule-then-schedule", "parse-same-again") or last is None:
             ti = rnd.randrange(len(texts)) if not (op == "parse-same-again" and last) else last[0]
             if op != "parse-same-again" and touched and rnd.random() < 0.5:
                 # prefer a sibling (same ids / start / zones, one aspect different) of a text this interpreter has seen
@@ -293,12 +332,14 @@ def drive(prop, tier, seed, cfg):
     from .. import main as M
     C, sigs, viols, vc, samples, wnotes, status = M.merge(results)
     fresh = collections.defaultdict(dict)
+    fresh_cli = collections.defaultdict(dict)
     hists = []
     notes = []
     for n in wnotes:
         if n.startswith("FRESH "):
             d = common.loads(n[6:])
             fresh[d["text"]][d["hashseed"]] = d["fp"]
+            fresh_cli[d["text"]][d["hashseed"]] = d.get("cli")
         elif n.startswith("HIST "):
             hists.append(common.loads(n[5:]))
         else:
@@ -316,12 +357,18 @@ def drive(prop, tier, seed, cfg):
         C["fresh-comparisons"] += len(d)
         if len(vals) > 1:
             add("fresh-result-depends-on-hash-seed", dict(text=ti, fps=d), dict(property="C12", clause="fresh-result-depends-on-hash-seed", text=texts[ti]))
+    ref_cli = {}
+    for ti, d in fresh_cli.items():
+        ref_cli[ti] = d.get("0")
+        C["fresh-cli-comparisons"] += len(d)
+        if len(set(d.values())) > 1:
+            add("fresh-cli-result-depends-on-hash-seed", dict(text=ti, fps=d), dict(property="C12", clause="fresh-cli-result-depends-on-hash-seed", text=texts[ti]))
     # (2) every operation of every history equals the fresh result of that text
     for h in hists:
         prev = None
         for e in h["log"]:
             C["history-comparisons"] += 1
-            want = ref.get(e["text"])
+            want = ref_cli.get(e["text"]) if e["op"] == "cli-run" else ref.get(e["text"])
             sigs.add(common.dumps(("C12", prev, e["op"], (want or "").startswith("EXC"), len(texts[e["text"]]) // 400)))
             if want is not None and e["fp"] != want:
                 add("result-depends-on-history:" + e["op"], dict(history=h["hist"], step=e["step"], op=e["op"], text=e["text"], got=e["fp"], fresh=want,
